@@ -60,8 +60,10 @@ func Decode(raw json.RawMessage) (core.Schedule, error) {
 	return s, json.Unmarshal(raw, s)
 }
 
-var keyPool = []string{"/tables/a", "/tables/b", "/tables/ab", "/tables/a/lease", "/tables/b/lease", "/tables/sys/idseq", "/cleanup/1/a", "/cleanup/1/b", "/cleanup/2/a", "/cleanup/12/c", "/x", "/tables/a/b/c", "/tables/ab/x/y", "/cleanup/12/c/d", "/tables/b_old/s/0"}
-var patterns = []string{"/tables/*", "/cleanup/1/*", "/cleanup/2/*", "/cleanup/*/*", "/tables/*/lease", "/*", "/tables/a*", "/nonexistent/*", "/tables/?", "/tables/[ab]"}
+var keyPool = []string{"/tables/a", "/tables/b", "/tables/ab", "/tables/a/lease", "/tables/b/lease", "/tables/sys/idseq", "/cleanup/1/a", "/cleanup/1/b", "/cleanup/2/a", "/cleanup/12/c", "/x", "/tables/a/b/c", "/tables/ab/x/y", "/cleanup/12/c/d", "/tables/b_old/s/0",
+	// a key equal to the directory of a pattern, and keys that extend that directory's name as a string
+	"/cleanup/1", "/cleanup/10", "/cleanup/1x"}
+var patterns = []string{"/tables/*", "/cleanup/1/*", "/cleanup/2/*", "/cleanup/*/*", "/tables/*/lease", "/*", "/tables/a*", "/nonexistent/*", "/tables/?", "/tables/[ab]", "/tables/a/*", "/tables/ab/*", "/cleanup/12/*"}
 var dirs = []string{"/tables", "/tables/a", "/cleanup", "/cleanup/1", "/tables/sys", "/nothing", "/tables/a/b", "/x", "/tables/b", "/tables/ab", "/cleanup/12"}
 var valPool = []string{"", "v", "{\"name\":\"t\",\"cluster_id\":10001}", "quote\"back\\slash", "new\nline\ttab", "ünïcödé ✓", "<html>&amp;", " sep", "10002", "1700000000000$3"}
 
